@@ -354,3 +354,21 @@ CHECKS["C18"] = {
     ],
     "floors": {"C18/wire": {"control_packets": 0.3, "multi_frame": 0.3}, "C18/end_to_end": {"new_client_old_server": 0.3, "old_client_new_server": 0.3, "soft_cancel_ignored_by_old_peer": 0.03, "unknown_control_packet_injected": 0.2}},
 }
+
+CHECKS["C17"] = {
+    "pkg": "./gen",
+    "level": "exploration",
+    "rule": ("A case is a service descriptor built in Go (no protoc needed): package p / a.b_c.d / pkg_x / x.Y, go_package with or without alias, 1..4 services of 0..6 methods with names drawn from an alphabet of underscore/mixed-case/digit/"
+             "near-colliding identifiers (A, A_B, a_b, Ab, get_item, listItems, Sync_All, Do_It2, ...), all four streaming combinations, request/response types that are local messages, a message imported from another Go package, or a well-known type, "
+             "plugin options protolib default/custom and json on/off. protoc-gen-go (module cache) and protoc-gen-go-drpc (built from /repo each run) are fed the CodeGeneratorRequest; the harness independently derives, from the descriptor alone, the expected RPC strings, "
+             "Go identifiers and method signatures and emits a driver: a server implementation with exactly those signatures, mux registration, Description checks (NumMethods, Method(i) rpc string, Method(n) not ok) and one client call per method over a real drpcconn/drpcserver pair "
+             "through a connection wrapper that records the RPC name each stub uses. Verdict: go vet of generated code + driver succeeds, Register returns nil, every method round-trips, client and description RPC strings equal '/'+package.Service+'/'+Method. "
+             "Non-trivial: >= 2 services, a streaming method, or an identifier that needs mangling. Distinct by descriptor."),
+    "assumptions": ["descriptors, not .proto text, are explored: protoc's own parsing and validation are outside the loop",
+                    "descriptors that protoc-gen-go itself maps to colliding Go identifiers are not generated; collisions produced only by the drpc plugin's naming scheme are known finding F12 (excluded by construction, replayed each run)",
+                    "the gogo protolib option is not exercised (no gogo message generator is available offline)"],
+    "subs": [
+        {"test": "TestC17Generated", "prop": "C17/generated", "quick": 160, "thorough": 6000, "shards_quick": 16, "shards_thorough": 16, "timeout_quick": 1200, "shrinktime": "120s"},
+    ],
+    "floors": {"C17/generated": {"streaming_method": 0.4, "identifier_needs_mangling": 0.4, "services_2plus": 0.25, "imported_message_type": 0.3}},
+}
